@@ -113,15 +113,15 @@ def collect_charge_bayer(img, wave, qe_red, qe_green, qe_blue, bayer_pattern,
     # build up the bayer image. we do this one channel at a time, and then
     # accumulate the individual channels into one final frame
     red_mosaic = np.tile(red_kernel, (nrow // red_kernel.shape[0], ncol // red_kernel.shape[1]))
-    red_mosaic = scipy.ndimage.zoom(red_mosaic, oversample, order=0, mode='wrap')
+    red_mosaic = np.repeat(np.repeat(red_mosaic, oversample, axis=0), oversample, axis=1)
     red_e = np.einsum('ijk,i->jk', img, qe_red) * red_mosaic
 
     green_mosaic = np.tile(green_kernel, (nrow // green_kernel.shape[0], ncol // green_kernel.shape[1]))
-    green_mosaic = scipy.ndimage.zoom(green_mosaic, oversample, order=0, mode='wrap')
+    green_mosaic = np.repeat(np.repeat(green_mosaic, oversample, axis=0), oversample, axis=1)
     green_e = np.einsum('ijk,i->jk', img, qe_green) * green_mosaic
 
     blue_mosaic = np.tile(blue_kernel, (nrow // blue_kernel.shape[0], ncol // blue_kernel.shape[1]))
-    blue_mosaic = scipy.ndimage.zoom(blue_mosaic, oversample, order=0, mode='wrap')
+    blue_mosaic = np.repeat(np.repeat(blue_mosaic, oversample, axis=0), oversample, axis=1)
     blue_e = np.einsum('ijk,i->jk', img, qe_blue) * blue_mosaic
 
     if flatten:
